@@ -3,5 +3,5 @@
 P=$1; W=$2; L=$3
 for k in 1 2 3; do d=/verif/seeded/$P-$L$k; mkdir -p $d; cp $W/out/m$k/patch.diff $W/out/m$k/demo.py $W/out/m$k/notes.md $d/; python3 -c "
 import json
-json.dump({'property':'$P','source':'fresh sub-agent (round 2: told only the property text and a one-line list of already-tried changes) in a scratch worktree','needs':open('$d/notes.md').read()[:1500]}, open('$d/meta.json','w'), indent=1)"; done
+json.dump({'property':'$P','source':'fresh sub-agent (later round: told only the property text and a one-line list of already-tried changes) in a scratch worktree','needs':open('$d/notes.md').read()[:1500]}, open('$d/meta.json','w'), indent=1)"; done
 git -C /repo worktree remove --force $W
